@@ -263,8 +263,8 @@ type oracleFailure struct{ sig, detail string }
 func keyOfNode(n interface{}) string {
 	m, _ := n.(map[string]interface{})
 	switch id := m["id"].(type) {
-	case float64:
-		return fmt.Sprintf("%d", int64(id))
+	case int64:
+		return fmt.Sprintf("%d", id)
 	case string:
 		return id
 	}
@@ -290,7 +290,7 @@ func viewOf(conn map[string]interface{}) (v pageView) {
 		v.keys = append(v.keys, keyOfNode(em["node"]))
 		v.cursors = append(v.cursors, em["cursor"].(string))
 	}
-	v.total = int64(conn["totalCount"].(float64))
+	v.total = conn["totalCount"].(int64)
 	pi := conn["pageInfo"].(map[string]interface{})
 	v.hasNext = pi["hasNextPage"].(bool)
 	v.hasPrev = pi["hasPrevPage"].(bool)
@@ -444,4 +444,43 @@ func checkExtPage(c *Case, a Args, r pageResult) []oracleFailure {
 		fs = append(fs, oracleFailure{"start-end-cursor-wrong", fmt.Sprintf("start=%q end=%q, first/last edge %q/%q", v.start, v.end, ws, we)})
 	}
 	return fs
+}
+
+// checkPanicPage: every filter / sort field function of the case panics.  A failing resolver fails the
+// request and nothing else: the process must survive, and where a field function is certainly invoked the
+// request must end in an error (otherwise the page, if any, is judged as usual).
+func checkPanicPage(c *Case, p pageResult) []oracleFailure {
+	if strings.HasPrefix(p.Err, "process-died") || p.Err == "timeout" {
+		return []oracleFailure{{"panic-in-field-function-kills-process", p.Err}}
+	}
+	a := c.Args
+	filterRuns := len(c.Items) > 0 && a.FilterText != nil && *a.FilterText != "" && c.Field != "bareI" &&
+		(!externallyManaged(c) || c.Ext.ApplyTextFilter) && (a.FilterFields == nil || someRegistered(c, *a.FilterFields))
+	sortRuns := false
+	if !externallyManaged(c) && a.SortBy != nil && !filterRuns {
+		if _, ok := attrOf(c.Field, *a.SortBy, sortAttrs); ok {
+			q := *c
+			q.Panic = false
+			sortRuns = len(refFilter(&q, a)) > 0
+		}
+	}
+	if filterRuns || sortRuns {
+		if p.Err == "" {
+			return []oracleFailure{{"panic-in-field-function-swallowed", "the request returned a page although a filter/sort field function panicked"}}
+		}
+		return nil
+	}
+	if p.Err == "resolver-panic" {
+		return nil
+	}
+	return checkPage(c, a, p)
+}
+
+func someRegistered(c *Case, fields []string) bool {
+	for _, f := range fields {
+		if _, ok := attrOf(c.Field, f, textAttrs); ok {
+			return true
+		}
+	}
+	return false
 }
